@@ -50,6 +50,15 @@ Proof.
 Qed.
 Print Assumptions C10_insphere_alternating.
 
+(* the predicate is invariant under similarities (translation + one common positive scale factor) of the
+   five points: evaluating it on grid images is equivalent to evaluating it on the positions iff the grid
+   map rescales all active axes by the same factor (see Example anisotropic_scaling_changes_the_answer) *)
+Theorem C10_insphere_similarity_invariant : forall (k : Z) (t a b c d v : P3), 0 < k ->
+  insphere_nowrap (similar k t a) (similar k t b) (similar k t c) (similar k t d) (similar k t v)
+  = insphere_nowrap a b c d v.
+Proof. exact insphere_similarity_invariant. Qed.
+Print Assumptions C10_insphere_similarity_invariant.
+
 (* the grid map is monotone (real-number semantics of the three correctly rounded operations) *)
 Theorem C10_iloc_real_monotone : forall A I x y : R,
   (0 <= I)%R -> (x <= y)%R -> (mant (T A I x) <= mant (T A I y))%R.
